@@ -670,6 +670,7 @@ pub fn run_zst(seed: u64, threads: usize, prop_cases: u32, max_ops: usize) -> (Z
                     for (k, op) in ops.iter().enumerate() {
                         // single step, followed by a short fixed tail that exercises the state
                         let c = ZCase { cap_index: ci as u8, boxed: k % 2 == 0, setup, ops: vec![op.clone(), ZOp::PushFront, ZOp::Views, ZOp::PopBack, ZOp::PushBack] };
+                        crate::watch::tick();
                         match run_zcase(&c) {
                             Ok(f) => st.note(&c, f),
                             Err(m) => {
